@@ -80,14 +80,14 @@ def main():
     cdir, harness, model = st
     known_listed = {k['id']: k for k in known_findings('C09')}
     lines = []; meta = []
-    SEGS = ['', '.', '..', 'a', 'b:c', 'x', '%2e', '%2E%2e', 'é']
+    SEGS = ['', '.', '..', 'a', 'b:c', 'x', '%2e', '%2E%2e', 'a..', '...', '..a', '.a', 'a.', 'é', 'é..']
     for fam in ('uri', 'iri'):
         g = Gen(random.Random(rnd.random()), fam)
         for i in range(8000 if thorough else 1500):
             if i % 40 == 0:   # beyond the 16-segment and 512-byte inline buffers
                 nseg = g.pick([17, 40, 200]); segl = [g.pick(['a', '..', '.', 'b' * 40, '']) for _ in range(nseg)]
             else:
-                segl = [g.pick(SEGS if fam == 'iri' else SEGS[:8]) for _ in range(g.pick([0, 1, 2, 3, 4, 5, 7]))]
+                segl = [g.pick(SEGS if fam == 'iri' else SEGS[:13]) for _ in range(g.pick([0, 1, 2, 3, 4, 5, 7]))]
             path = ('/' if g.r.random() < 0.5 else '') + '/'.join(segl)
             lines.append('norm\t%s\t%s' % (fam, hexs(path))); meta.append(('norm', fam, path.encode(), None))
             # embedded in every kind of reference
@@ -165,6 +165,10 @@ def main():
             if is_abs(b1[2]) != is_abs(b0[2]): pr.append('absoluteness changed')
             if secs[2][0] != secs[1][0]: pr.append('embedded normalize() is not idempotent')
             classes.add((op, kind, b0[0] is None, b0[1] is None, is_abs(b0[2]), min(len(segs(b0[2])), 6)))
+        strip = lambda s: [x for i, x in enumerate(s.split('\t')) if x not in ('0', '1', '-') or i == 0]
+        if kn and not pr and strip(io) != strip(mo):
+            pr.append('deviates inside the recorded class %s, but NOT in the recorded way (the model carries the recorded behaviour)' % '/'.join(sorted(kn)))
+            kn = set()
         for k in kn:
             known_seen[k] = known_seen.get(k, 0) + 1
             if k in known_listed:
